@@ -37,9 +37,15 @@ def run(ctx):
 
 def strip_havoc(t):
     """config fields are never written (R16.3): look through the engine's havoc wrappers"""
+    VIEWS = ("as_str", "deref", "as_ref", "borrow", "as_bytes", "as_mut_str")     # the same characters, another type
+
     def f(x):
         if x[0] == "call" and x[1].startswith("havoc:"):
             return T.rewrite(x[2][0], f)
+        if x[0] == "call" and len(x[2]) == 1 and sym.strip_all_generics(x[1]).split("::")[-1] in VIEWS:
+            return T.rewrite(x[2][0], f)
+        if x[0] in ("ptr", "obj") and x[1][0] == "D" and (x[0] == "obj" or not x[2]):
+            return T.rewrite(x[1][1], f)
         return None
     return T.rewrite(t, f)
 
@@ -57,7 +63,7 @@ def r16_1(ctx, rep, roles, pm):
         cmpc = None
         for c in row.cond:
             if c[0] == "truth" and c[1][0] == "op" and c[1][1] in ("Ne", "Eq"):
-                a, b = strip_havoc(c[1][2]), strip_havoc(c[1][3])
+                a, b = strip_havoc(T.resolve_locals(pm.eng, row.store, c[1][2])), strip_havoc(T.resolve_locals(pm.eng, row.store, c[1][3]))
                 if RECV_ID in (a, b):
                     cmpc = (c, a, b)
         if cmpc is None:
@@ -84,7 +90,7 @@ def r16_1(ctx, rep, roles, pm):
             ci = None
             for i, e in enumerate(row.events):
                 if e[0] == "call" and ("PartialEq" in e[1] or e[1].endswith("::ne") or e[1].endswith("::eq")) and any(
-                        RECV_ID in T.subterms(strip_havoc(pm.eng.read_rp(models._St(row.store), x[1], x[2]) if x[0] == "ptr" else x)) for x in e[2]):
+                        RECV_ID in T.subterms(strip_havoc(T.resolve_locals(pm.eng, row.store, pm.eng.read_rp(models._St(row.store), x[1], x[2]) if x[0] == "ptr" else x))) for x in e[2]):
                     ci = i
             for role in effectful:
                 for e in pm.calls(row, role):
